@@ -174,7 +174,7 @@ func runProperty(id, tier string, start time.Time) (code int) {
 		r.P = p
 		r.Configs = append(r.Configs, "linux/amd64 default tags")
 		checkAnchors(r)
-		def.Run(r)
+		runWithCommon(def, r)
 	}()
 	if fatal != "" {
 		r.viol("analysis-failed", "", "driver", fatal, "a checker that cannot see the code must not pass", "", 0)
@@ -407,7 +407,7 @@ func replay(path string) int {
 		return 1
 	}
 	r := &Run{P: p, Prop: v.Property, Tier: "quick", Funcs: map[string]bool{}, Regions: map[string]int{}}
-	def.Run(r)
+	runWithCommon(def, r)
 	for _, o := range r.Obls {
 		if o.Key == v.Obligation.Key {
 			fmt.Printf("  now: status=%s %s:%d\n  %s\n", o.Status, o.File, o.Line, o.Detail)
